@@ -47,8 +47,17 @@ class ItextGen:
         if "nlangs" in self.directed:
             nl = self.directed["nlangs"]
         self.langs = rng.sample(LANG_POOL, nl)
+        # language names that differ only by letter case are different translations
+        if self.langs and rng.random() < 0.25:
+            base = rng.choice(self.langs)
+            var = rng.choice([base.upper(), base.lower(), base.title(), base.swapcase()])
+            if var not in self.langs:
+                self.langs.append(var)
         # the form's default language is decided first (settings cell wins over the argument)
         dl_pool = self.langs + ["default", "xx"]
+        if self.langs:
+            lg = rng.choice(self.langs)
+            dl_pool += [v for v in (lg.upper(), lg.lower(), lg.title()) if v != lg][:1]
         self.st_dl = rng.choice(dl_pool) if rng.random() < 0.45 else None
         self.kw_dl = rng.choice(dl_pool) if rng.random() < 0.3 else None
         self.dl = self.st_dl or self.kw_dl or "default"
@@ -89,16 +98,28 @@ class ItextGen:
                 cols.append(f"{base}::{rng.choice(self.langs)}")
         else:
             cols.append(f"{base}::{rng.choice(self.langs)}")
-        if base in cols and f"{base}::{self.dl}" in cols:
-            # `x` together with `x::<default language>` nests a dict under the default language and
-            # crashes the converter (header layer, outside C07): keep the unsuffixed column only
-            cols.remove(f"{base}::{self.dl}")
         for c in cols:
             if base in MEDIA_COLS:
                 row[c] = rng.choice(["a.png", "b.jpg", "-", "m.mp3"])
             else:
                 row[c] = self.text(dyn)
         return True
+
+    def bind_message(self, row, col, p):
+        """A bind message column given directly (bind::jr:…): plain / with ${ref} / per language."""
+        rng = self.rng
+        if rng.random() >= p:
+            return
+        dyn = rng.random() < 0.5
+        mode = rng.random()
+        if not self.langs or mode < 0.5:
+            row[col] = self.text(dyn)
+        else:
+            for lg in self.langs:
+                if rng.random() < 0.6:
+                    row[f"{col}::{lg}"] = self.text(dyn and rng.random() < 0.7)
+            if mode > 0.85:
+                row[col] = self.text(dyn)
 
     def list_name(self, search=False):
         rng = self.rng
@@ -165,6 +186,8 @@ class ItextGen:
                 row["type"] += rng.choice([" or_other", " or other"])
             if rng.random() < 0.15 and "or" not in row["type"].split(" ")[2:]:
                 row["choice_filter"] = "true()"
+            if rng.random() < 0.08 and typ != "rank":
+                row["parameters"] = rng.choice(["randomize=true", "randomize=true seed=3"])
         elif r < 0.44:
             row["type"] = rng.choice(["select_one_from_file f.csv", "select_multiple_from_file g.xml", "select_one_from_file h.geojson"])
             if rng.random() < 0.1:
@@ -196,10 +219,7 @@ class ItextGen:
         if rng.random() < 0.45:
             row["required"] = rng.choice(["yes", "true()", "${q0} = 'a'"])
             self.sparse(row, "required_message", p_any=0.8, dyn_p=0.3)
-        if rng.random() < 0.05 and self.langs:
-            row[f"bind::jr:noAppErrorString::{rng.choice(self.langs)}"] = "no app"
-        if rng.random() < 0.05:
-            row["bind::jr:noAppErrorString"] = "no app"
+        self.bind_message(row, "bind::jr:noAppErrorString", 0.12)
         if base == "range" and rng.random() < 0.5:
             row["parameters"] = "start=1 end=5 step=1"
         if rng.random() < 0.05 and base in ("text", "integer") and not in_repeat:
@@ -223,6 +243,7 @@ class ItextGen:
                     row["relevant"] = "${q0} = 'a'"
                     self.sparse(row, "constraint_message", p_any=0.5)
                     self.sparse(row, "required_message", p_any=0.3)
+                    self.bind_message(row, "bind::jr:noAppErrorString", 0.3)
                 if rng.random() < 0.15:
                     row["appearance"] = "field-list"
                 rows.append(row)
